@@ -52,8 +52,8 @@ func fxIsDialectField(name string) bool {
 
 func init() {
 	Register(&Rule{ID: "R-FMT-1", Props: []string{"C02"}, Floor: 1,
-		Doc:      "every EncodeView call that writes into a table file (writer obtained from (*file.Handler).FileForUpdate) receives as options the result of (*FileInfo).ExportOptions called on the FileInfo of the view being written — never the session options",
-		Controls: []string{"CtlEncodeWithSessionOptions"},
+		Doc:      "every EncodeView call that writes into a table file (writer obtained from (*file.Handler).FileForUpdate; a writer, options, view or FileInfo parameter of a private helper is mapped back to the argument of each calling context) receives as options the result of (*FileInfo).ExportOptions called on the FileInfo of the view being written — never the session options",
+		Controls: []string{"CtlEncodeWithSessionOptions", "CtlEncodeHelperOtherFileInfo"},
 		Run:      ruleFmt1})
 	Register(&Rule{ID: "R-FMT-2", Props: []string{"C02"}, Floor: 20,
 		Doc:      "(*FileInfo).ExportOptions copies each of the 10 dialect fields (Format, Delimiter, DelimiterPositions, SingleLine, Encoding, LineBreak, NoHeader→WithoutHeader, EncloseAll, JsonEscape, PrettyPrint) of the returned options from the receiver; the last store to each field before the return is a load of the receiver's field (composite literal and field-store spellings alike). The presentation field Color is the constant false in the returned options (ANSI escape sequences are for the terminal: a coloured JSON file cannot be loaded again). The field table is complete: every field of option.ExportOptions that an encoder of the six file formats reads (the lib/query functions reachable from EncodeView, the text-table encoder excepted) is one of the 10 dialect fields, a constant field, or a listed session-level value-spelling switch (ScientificNotation)",
@@ -64,8 +64,8 @@ func init() {
 		Controls: []string{"CtlLoaderDropsLineBreak", "CtlLoaderHelperDropsEncoding"},
 		Run:      ruleFmt3})
 	Register(&Rule{ID: "R-FMT-4", Props: []string{"C02"}, Floor: 2,
-		Doc:      "in Transaction.Commit and the lib/query helpers of the commit path (those that reach an os.File write and are handed a file / writer / handler / FileInfo / view; EncodeView and FileInfo.ExportOptions excluded) (i) none of the 10 dialect fields and no presentation field (Color) of the session options tx.Flags.ExportOptions is read, also not through a local copy of the flags, and (ii) every line break written directly into a table file (os.File.Write / WriteString / io.Writer.Write whose bytes come from a LineBreak.Value() or a CR/LF constant, followed through conversions, locals, phis and helper parameters) is made from the LineBreak of the FileInfo being written or of its own ExportOptions — a session-flag or constant origin is reported as such",
-		Controls: []string{"CtlCommitReadsSessionLineBreak", "CtlCommitHoistedSessionLineBreak"},
+		Doc:      "in Transaction.Commit and the lib/query helpers of the commit path (those that reach an os.File write and are handed a file / writer / handler / FileInfo / view; EncodeView and FileInfo.ExportOptions excluded) (i) none of the 10 dialect fields and no presentation field (Color) of the session options tx.Flags.ExportOptions is read, also not through a local copy of the flags, and (ii) every line break written directly into a table file (os.File.Write / WriteString / io.Writer.Write whose bytes come from a LineBreak.Value() or a CR/LF constant, followed through conversions, locals, phis and helper parameters; a write into a file parameter of a helper is judged once per calling context of the commit path, the file and FileInfo parameters mapped back to the caller's arguments) is made from the LineBreak of the FileInfo being written or of its own ExportOptions — a session-flag or constant origin is reported as such",
+		Controls: []string{"CtlCommitReadsSessionLineBreak", "CtlCommitHoistedSessionLineBreak", "CtlCommitHelperOtherFileLineBreak"},
 		Run:      ruleFmt4})
 	Register(&Rule{ID: "R-FMT-5", Props: []string{"C02"}, Floor: 20,
 		Doc:      "in the lib/query functions reachable from EncodeView every error returned by a go-text/bufio writer or encoder (NewWriter, Write, WriteString, Flush, Encode) is either returned or tested with `!= nil` on an edge from which every return yields a non-nil error",
@@ -150,39 +150,70 @@ func ruleFmt1(c *Ctx) {
 			if len(args) < 4 {
 				continue
 			}
-			toTableFile := false
-			for _, o := range core.Origins(args[1], true) {
-				if oc, _ := fxCallOf(o); oc != nil && c.P.CalleeName(oc) == "lib/file.(*Handler).FileForUpdate" {
-					toTableFile = true
+			// the writer may be a parameter of a private helper (the encode block of Commit moved
+			// out): each calling context is judged with the values the caller hands over
+			for _, ctx := range fxLift(c, args[1], fn, 3) {
+				toTableFile := false
+				for _, o := range core.Origins(ctx.V, true) {
+					if oc, _ := fxCallOf(o); oc != nil && c.P.CalleeName(oc) == "lib/file.(*Handler).FileForUpdate" {
+						toTableFile = true
+					}
 				}
-			}
-			if !toTableFile {
-				continue // prints a result set (stdout / --out): the session options apply
-			}
-			c.Touch(fn)
-			perFn[fn]++
-			if fromCommit[fn] {
-				commitSites++
-			}
-			key := c.KeyAt(fn, fmt.Sprintf("EncodeView into a table file #%d", perFn[fn]))
-			in := call.(ssa.Instruction)
-			bad := ""
-			for _, o := range fxStructOrigins(args[3]) {
-				oc, _ := fxCallOf(o)
-				if oc == nil || c.P.CalleeName(oc) != fxExportOptions {
-					bad = fmt.Sprintf("the options argument is %s, not the result of (*FileInfo).ExportOptions: the file would be rewritten in the session's dialect instead of its own", valueLabel(o))
-					break
+				if !toTableFile {
+					continue // prints a result set (stdout / --out): the session options apply
 				}
-				recv := oc.Common().Args[0]
-				if !fxFileInfoOfView(c, recv, args[2]) {
-					bad = fmt.Sprintf("ExportOptions is called on %s, which is not the FileInfo of the view being written (neither view.FileInfo nor the FileInfo whose IdentifiedPath selected the view)", valueLabel(recv))
-					break
+				host := ctx.Fn
+				c.Touch(fn)
+				c.Touch(host)
+				perFn[host]++
+				if fromCommit[fxRootFn(host)] {
+					commitSites++
 				}
-			}
-			if bad != "" {
-				c.Bad(key, c.Pos(in), bad)
-			} else {
-				c.Ok(key, c.Pos(in), "options = ExportOptions() of the FileInfo of the written view")
+				key := c.KeyAt(host, fmt.Sprintf("EncodeView into a table file #%d", perFn[host]))
+				in := ctx.At(call.(ssa.Instruction))
+				n := len(ctx.Chain)
+				opts, ol := fxMapUp(ctx.Chain, args[3], n)
+				bad := ""
+				for _, o := range fxStructOrigins(opts) {
+					oc, _ := fxCallOf(o)
+					if oc == nil || c.P.CalleeName(oc) != fxExportOptions {
+						bad = fmt.Sprintf("the options argument is %s, not the result of (*FileInfo).ExportOptions: the file would be rewritten in the session's dialect instead of its own", valueLabel(o))
+						break
+					}
+					// the FileInfo and the view are compared in a function that sees both
+					recv, rl := oc.Common().Args[0], ol
+					view, vl := args[2], n
+					same := false
+					for {
+						if rl == vl && fxFileInfoOfView(c, recv, view) {
+							same = true
+							break
+						}
+						moved := false
+						if rl >= vl {
+							if w, ok := fxUp1(ctx.Chain, recv, rl); ok {
+								recv, rl, moved = w, rl-1, true
+							}
+						}
+						if vl > rl || (!moved && vl == rl) {
+							if w, ok := fxUp1(ctx.Chain, view, vl); ok {
+								view, vl, moved = w, vl-1, true
+							}
+						}
+						if !moved {
+							break
+						}
+					}
+					if !same {
+						bad = fmt.Sprintf("ExportOptions is called on %s, which is not the FileInfo of the view being written (neither view.FileInfo nor the FileInfo whose IdentifiedPath selected the view)", valueLabel(recv))
+						break
+					}
+				}
+				if bad != "" {
+					c.Bad(key, c.Pos(in), bad)
+				} else {
+					c.Ok(key, c.Pos(in), "options = ExportOptions() of the FileInfo of the written view")
+				}
 			}
 		}
 	}
@@ -918,6 +949,7 @@ func ruleFmt4(c *Ctx) {
 	}
 	start4 := len(c.Obs)
 	defer func() {
+		c.negControls(start4, "okCommitHelperOwnLineBreak")
 		// not vacuous: the two closing line breaks of Commit must have been recognised (when the bytes
 		// started to come from a helper, the walk lost them and the clause passed silently)
 		n := 0
@@ -996,82 +1028,129 @@ func ruleFmt4(c *Ctx) {
 	for _, fn := range scope {
 		inScope[fn] = true
 	}
+	type lvLeaf struct {
+		fxLbLeaf
+		lvl int // the level of the calling context the leaf's value lives at
+	}
+	originOfArg := func(a ssa.Value) ([]fxLbLeaf, bool) {
+		if strings.HasSuffix(core.NamedOf(a.Type()), "go-text.LineBreak") {
+			// wrap: the parameter is the LineBreak itself
+			tmp, _ := fxLineBreakOriginOfLB(c, a)
+			return tmp, true
+		}
+		return fxLineBreakOrigin(c, a)
+	}
+	perHost := map[*ssa.Function]int{}
 	for _, fn := range scope {
-		n := 0
 		for _, ci := range core.Calls(fn) {
 			recv, data, ok := fxFileWrite(c, ci)
 			if !ok {
 				continue
 			}
-			leaves, isLB := fxLineBreakOrigin(c, data)
-			// a helper that is handed the bytes / the line break: judged at its call sites
-			var resolved []fxLbLeaf
-			for _, l := range leaves {
-				if l.kind != fxLbParam {
-					resolved = append(resolved, l)
-					continue
+			leaves0, isLB0 := fxLineBreakOrigin(c, data)
+			// the file written may be a parameter of a helper of the commit path: the write is judged
+			// once per calling context inside the commit path, with the caller's values
+			var ctxs []fxCtxVal
+			for _, x := range fxLift(c, recv, fn, 3) {
+				if len(x.Chain) > 0 && inScope[fxRootFn(x.Fn)] {
+					ctxs = append(ctxs, x)
 				}
-				found := false
-				for _, caller := range scope { // slice order, not map order
-					for _, cc := range core.Calls(caller) {
-						if core.StaticCallee(cc) != fn || l.idx >= len(cc.Common().Args) {
+			}
+			if len(ctxs) == 0 {
+				ctxs = []fxCtxVal{{V: recv, Fn: fn}}
+			}
+			for _, ctx := range ctxs {
+				isLB := isLB0
+				// a helper that is handed the bytes / the line break: judged at its call sites
+				var resolved []lvLeaf
+				var resolve func(leaves []fxLbLeaf, lvl int, in *ssa.Function)
+				resolve = func(leaves []fxLbLeaf, lvl int, in *ssa.Function) {
+					for _, l := range leaves {
+						if l.kind != fxLbParam {
+							resolved = append(resolved, lvLeaf{l, lvl})
 							continue
 						}
-						a := cc.Common().Args[l.idx]
-						var sub []fxLbLeaf
-						sawLB := false
-						if strings.HasSuffix(core.NamedOf(a.Type()), "go-text.LineBreak") {
-							// wrap: the parameter is the LineBreak itself
-							tmp, _ := fxLineBreakOriginOfLB(c, a)
-							sub, sawLB = tmp, true
-						} else {
-							sub, sawLB = fxLineBreakOrigin(c, a)
-						}
-						if sawLB {
-							isLB = true
-						}
-						for _, sl := range sub {
-							if sl.kind == fxLbParam {
-								sl = fxLbLeaf{kind: fxLbOther, what: "a parameter of " + c.P.Name(caller)}
+						if lvl > 0 {
+							// along the calls of this context
+							site := ctx.Chain[lvl-1]
+							if core.StaticCallee(site) != in || l.idx >= len(site.Common().Args) {
+								resolved = append(resolved, lvLeaf{fxLbLeaf{kind: fxLbOther, what: "a parameter of " + c.P.Name(in)}, lvl})
+								continue
 							}
-							resolved = append(resolved, sl)
+							sub, sawLB := originOfArg(site.Common().Args[l.idx])
+							if sawLB {
+								isLB = true
+							}
+							resolve(sub, lvl-1, site.Parent())
+							continue
 						}
-						found = true
+						found := false
+						for _, caller := range scope { // slice order, not map order
+							for _, cc := range core.Calls(caller) {
+								if core.StaticCallee(cc) != in || l.idx >= len(cc.Common().Args) {
+									continue
+								}
+								sub, sawLB := originOfArg(cc.Common().Args[l.idx])
+								if sawLB {
+									isLB = true
+								}
+								for _, sl := range sub {
+									if sl.kind == fxLbParam {
+										sl = fxLbLeaf{kind: fxLbOther, what: "a parameter of " + c.P.Name(caller)}
+									}
+									resolved = append(resolved, lvLeaf{sl, -1})
+								}
+								found = true
+							}
+						}
+						if !found {
+							resolved = append(resolved, lvLeaf{fxLbLeaf{kind: fxLbOther, what: "a parameter no call in the commit path supplies"}, -1})
+						}
 					}
 				}
-				if !found {
-					resolved = append(resolved, fxLbLeaf{kind: fxLbOther, what: "a parameter no call in the commit path supplies"})
+				resolve(leaves0, len(ctx.Chain), fxRootFn(fn))
+				if !isLB {
+					continue // not a line break (EncodeView's writers, other payload)
 				}
-			}
-			if !isLB {
-				continue // not a line break (EncodeView's writers, other payload)
-			}
-			n++
-			c.Sites++
-			key := c.KeyAt(fn, fmt.Sprintf("trailing line break write #%d", n))
-			pos := c.Pos(ci.(ssa.Instruction))
-			bad, und := "", ""
-			for _, l := range resolved {
-				switch l.kind {
-				case fxLbSession:
-					bad = "the line break appended to the table file is made from the SESSION flag tx.Flags.ExportOptions.LineBreak (directly or through a local copy of the flags), not from the LineBreak of the FileInfo being written: a CRLF file committed under the default flags ends in a bare LF"
-				case fxLbConst:
-					bad = "the line break appended to the table file is the constant " + l.what + ", not the LineBreak of the FileInfo being written"
-				case fxLbOther:
-					und = "cannot-analyse: the line break appended to the table file comes from " + l.what + "; the rule cannot follow it to a FileInfo.LineBreak"
-				case fxLbFile:
-					if why := fxOtherFile(c, l.x, recv); why != "" {
-						bad = why
+				host := ctx.Fn
+				perHost[host]++
+				c.Sites++
+				key := c.KeyAt(host, fmt.Sprintf("trailing line break write #%d", perHost[host]))
+				pos := c.Pos(ctx.At(ci.(ssa.Instruction)))
+				bad, und := "", ""
+				for _, l := range resolved {
+					switch l.kind {
+					case fxLbSession:
+						bad = "the line break appended to the table file is made from the SESSION flag tx.Flags.ExportOptions.LineBreak (directly or through a local copy of the flags), not from the LineBreak of the FileInfo being written: a CRLF file committed under the default flags ends in a bare LF"
+					case fxLbConst:
+						bad = "the line break appended to the table file is the constant " + l.what + ", not the LineBreak of the FileInfo being written"
+					case fxLbOther:
+						und = "cannot-analyse: the line break appended to the table file comes from " + l.what + "; the rule cannot follow it to a FileInfo.LineBreak"
+					case fxLbFile:
+						// the FileInfo and the file are compared where both are visible: in the function
+						// of the write, or after mapping a FileInfo parameter back to the caller's value
+						F, fl, W := l.x, l.lvl, recv
+						if fl >= 0 && fl <= len(ctx.Chain) && len(ctx.Chain) > 0 {
+							F, fl = fxMapUp(ctx.Chain, F, fl)
+							if fl == 0 {
+								W = ctx.V
+							} else if fl != len(ctx.Chain) {
+								break
+							}
+						}
+						if why := fxOtherFile(c, F, W); why != "" {
+							bad = why
+						}
 					}
 				}
-			}
-			switch {
-			case bad != "":
-				c.Bad(key, pos, bad)
-			case und != "":
-				c.Unknown(key, pos, und)
-			default:
-				c.Ok(key, pos, "the bytes are made from the LineBreak of the FileInfo being written (or of its own ExportOptions)")
+				switch {
+				case bad != "":
+					c.Bad(key, pos, bad)
+				case und != "":
+					c.Unknown(key, pos, und)
+				default:
+					c.Ok(key, pos, "the bytes are made from the LineBreak of the FileInfo being written (or of its own ExportOptions)")
+				}
 			}
 		}
 	}
